@@ -14,7 +14,7 @@ CONSTANT KnownDevs
 VARIABLES chunk, phase
 
 RECURSIVE SpellableNums(_)
-SpellableNums(v) == CASE v.t = "num" -> v.q \in {1, 2, 4, 5, 10}
+SpellableNums(v) == CASE v.t = "num" -> v.q \in {1, 2, 4, 5, 10} /\ UOf(v) = 0 /\ EOf(v) = 0
                       [] v.t = "arr" -> \A i \in DOMAIN v.a : SpellableNums(v.a[i])
                       [] v.t = "obj" -> \A i \in DOMAIN v.o : SpellableNums(v.o[i].v)
                       [] OTHER -> TRUE
@@ -28,15 +28,20 @@ KindClass(k) == CASE k \in {"not_enough_arguments", "too_many_arguments"} -> "ar
 (* the document: a tagged value, or JSON text given meaning by JsonParse *)
 DocOf(r) == IF "doctext" \in DOMAIN r THEN JsonParse(r.doctext) ELSE [ok |-> TRUE, dom |-> TRUE, v |-> r.doc]
 
+(* the registry of the runtime the case was compiled with: the shared default runtime and a "fresh" runtime hold the 26
+   built-ins, an "empty" runtime holds nothing (every call is an unknown function) *)
+EmptyReg == [x \in {} |-> [k |-> "builtin"]]
+RegOf(r) == IF "rt" \in DOMAIN r /\ r.rt = "empty" THEN EmptyReg ELSE Builtins
+
 Exp(r) ==
   LET L == Lex(r.text, {}) d == DocOf(r) IN
   IF ~L.ok \/ ~L.dom \/ L.toks = <<>> \/ ~Accepts(L.toks, {}) \/ ~d.ok \/ ~d.dom THEN [skip |-> TRUE]
-  ELSE LET t == TreeOf(L.toks) IN [skip |-> FALSE, t |-> t, d |-> d.v, o |-> Eval(t, d.v, Builtins)]
+  ELSE LET t == TreeOf(L.toks) IN [skip |-> FALSE, t |-> t, d |-> d.v, o |-> Eval(t, d.v, RegOf(r))]
 
 (* how the observed outcome relates to the outcome o the specification assigns *)
 Verdict(o, out) ==
   IF o.amb THEN "none"
-  ELSE IF "ok" \in DOMAIN out THEN (IF IsVOk(o) /\ o.ok = out.ok THEN "none" ELSE "value")
+  ELSE IF "ok" \in DOMAIN out THEN (IF IsVOk(o) /\ Matches(o.ok, out.ok) THEN "none" ELSE "value")
   ELSE IF "err" \in DOMAIN out
        THEN (IF "stage" \in DOMAIN out THEN "notcompiled"
              ELSE IF IsVErr(o) /\ out.err.class = "runtime" /\ KindClass(out.err.kind) = o.err THEN "none"
@@ -55,7 +60,7 @@ Special(t, doc, out) ==
        THEN LET ks == KeysOf(t.args[2].l, xs.ok.a, 1, Builtins, [vals |-> <<>>, amb |-> FALSE]) IN
             IF IsVOk(ks) /\ ~ks.amb
             THEN IF "ok" \in DOMAIN out /\ \E i \in DOMAIN xs.ok.a :
-                        /\ xs.ok.a[i] = out.ok
+                        /\ Matches(xs.ok.a[i], out.ok)
                         /\ \A j \in DOMAIN ks.ok : IF FnOf(t.name) = "max_by" THEN ~ValLess(ks.ok[i], ks.ok[j]) ELSE ~ValLess(ks.ok[j], ks.ok[i])
                  THEN "none" ELSE "value"
             ELSE "na"
@@ -78,9 +83,22 @@ SixLaws(out) ==
                 /\ Cardinality({i \in {1, 3, 5} : T(i)}) = 1
                 /\ T(4) = (T(3) \/ T(1)) /\ T(6) = (T(5) \/ T(1)))
 
+(* a pair that differs only in neighbouring doubles: '==' / '!=' are left open there (tolerant equality; the property speaks of
+   well-separated numbers), but they stay negations of each other, and the four ordering results are those of numeric order *)
+NearPair(x) == ~x.skip /\ x.d.t = "obj" /\ ObjHas(x.d, <<97>>) /\ ObjHas(x.d, <<98>>) /\ EqOpen(ObjGet(x.d, <<97>>), ObjGet(x.d, <<98>>))
+NearLaws(x, out) ==
+  IF "ok" \notin DOMAIN out \/ out.ok.t # "arr" \/ Len(out.ok.a) # 6 THEN FALSE
+  ELSE LET v == out.ok.a
+           l == ObjGet(x.d, <<97>>)
+           rr == ObjGet(x.d, <<98>>)
+           ops == <<"eq", "ne", "lt", "le", "gt", "ge">>
+       IN /\ v[1].t = "bool" /\ v[2].t = "bool" /\ v[2].b = ~v[1].b
+          /\ \A i \in 3..6 : CmpOpen(ops[i], l, rr) \/ v[i] = Cmp(ops[i], l, rr)
+
 Why(r) ==
   LET x == Exp(r) IN
-  IF r.e = "cmp" /\ ~SixLaws(r.out) THEN "laws"
+  IF r.e = "cmp" /\ NearPair(x) THEN (IF NearLaws(x, r.out) THEN "none" ELSE "laws")
+  ELSE IF r.e = "cmp" /\ ~SixLaws(r.out) THEN "laws"
   ELSE IF x.skip THEN "none"
   ELSE IF x.o.amb THEN LET sp == Special(x.t, x.d, r.out) IN IF sp = "na" THEN "none" ELSE sp
   ELSE Verdict(x.o, r.out)
@@ -102,7 +120,7 @@ Explains(r) ==
   ELSE <<>>
 NonTrivial(r) == "ok" \in DOMAIN r.out /\ r.out.ok.t # "null"
 
-Unjudged(r) == LET x == Exp(r) IN x.skip \/ (x.o.amb /\ Special(x.t, x.d, r.out) = "na")
+Unjudged(r) == LET x == Exp(r) IN x.skip \/ (x.o.amb /\ Special(x.t, x.d, r.out) = "na" /\ ~(r.e = "cmp" /\ NearPair(x)))
 
 J == INSTANCE JudgeLoop
 Spec == J!Spec
